@@ -1,5 +1,7 @@
 import Rare.Base.Proto
 import Rare.Model.C12
+import Rare.Spec.C12Grammar
+import Rare.Model.C16
 namespace Rare.Drv.C12
 open Rare Rare.C12 Rare.Proto
 
@@ -67,6 +69,33 @@ def handle : List String → String
         let rs := (cycle lines rep).map fun l => (f l).map (·.map Int.ofNat)
         s!"ok n={renderNames (nameTable p.toks)} a=1 r={renderRes rs}"
     | _, _, _, _, _ => "bad-args"
+  -- the GRAMMAR (one-pass recogniser of `Spec/C12Grammar.lean`) against `CompileEx`: the answer is the
+  -- recogniser's verdict and the model's error class; when recogniser and model disagree the answer is
+  -- one the implementation can never give
+  | ["grammar", pat] =>
+    match Hex.dec pat with
+    | some pat =>
+      let acc := acceptsPattern pat
+      let r0 := compileEx pat false
+      let r1 := compileEx pat true
+      let cls (r : Except CErr Dissect) : String := match r with | .ok _ => "none" | .error e => errName e
+      if cls r0 != cls r1 then "model-modes-disagree"
+      else if acc != (cls r0 == "none") then "spec-model-disagree"
+      else s!"ok accept={if acc then 1 else 0} err={cls r0}"
+    | none => "bad-args"
+  -- seam C16/C12: the name table C16's model (`C16.dissectNameTable`) derives from the compiled tokens
+  | ["nametab", ic, pat] =>
+    match Hex.dec pat with
+    | some pat =>
+      match compileEx pat (ic == "1") with
+      | .error e => s!"err {errName e}"
+      | .ok d =>
+        match C16.dissectNameTable (d.tokens.map fun t => (t.name, t.skip)) with
+        | .error m => s!"c16-error {m}"
+        | .ok table =>
+          if table != d.groupNames.map (fun e => (e.1, (e.2 : Int))) then "c16-c12-disagree"
+          else s!"ok n={renderNames (table.map fun e => (e.1, e.2.toNat))} count={d.groupCount}"
+    | none => "bad-args"
   | _ => "bad-op"
 
 end Rare.Drv.C12
